@@ -68,6 +68,25 @@ def build_pool(rng, quick):
             if variant == "ok":
                 ok_built[fmt] = (pd, reg)
             pool.append((f"reg/{fmt}/{variant}", "reg", regrun.policy_of(pd), reg))
+    # genuine recorded attestations that chain to the REAL built-in anchors (no substitution), inside and outside their validity
+    import os
+    V = json.load(open(os.path.join(os.path.dirname(os.path.dirname(os.path.abspath(__file__))), "realvec.json")))
+    class RealCred:
+        def __init__(self, d): self.d = d
+        def as_dict(self): return copy.deepcopy(self.d)
+    for fmt, v in V.items():
+        for variant, dt in (("ok", 0), ("expired", 400 * regsim.DAY)):
+            pool.append((f"real/{fmt}/{variant}", "reg", impl.RegPolicy(bytes.fromhex(v["challenge"]), v["rp_id"], v["origin"], now=v["now"] + dt), RealCred(v["credential"])))
+    # credential RECORDS whose binary fields are memoryviews, the same objects presented again and again
+    from webauthn.helpers.structs import AuthenticationCredential, AuthenticatorAssertionResponse, RegistrationCredential, AuthenticatorAttestationResponse
+    s = authcat.Scn("ES256-P256")
+    pol, a = s.build()
+    pool.append(("auth-record-memoryviews/ok", "auth-mv", pol, AuthenticationCredential(id=a.id_text, raw_id=memoryview(a.cred_id), response=AuthenticatorAssertionResponse(
+        client_data_json=memoryview(a.cdj), authenticator_data=memoryview(a.ad), signature=memoryview(a.sig)))))
+    rs = regsim.RScn("packed-self", "ES256-P256")
+    pd, reg = regsim.build(rs)
+    pool.append(("reg-record-memoryviews/ok", "reg-mv", regrun.policy_of(pd), RegistrationCredential(id=reg.id_text, raw_id=memoryview(reg.cred_id), response=AuthenticatorAttestationResponse(
+        client_data_json=memoryview(reg.cdj), attestation_object=memoryview(reg.att_obj)))))
     for j in range(3):
         pool.append((f"genreg/{j}", "genreg", None, None))
         pool.append((f"genauth/{j}", "genauth", None, None))
@@ -105,6 +124,23 @@ def run_spec(spec, O=None, R=None):
             out = "ERR " + fw.classify_exc(e)
         if (cred, kw) != before:
             viol.append("verify_registration_response modified the expectations / allowed algorithms / trust-anchor mapping it was passed")
+    elif kind in ("auth-mv", "reg-mv"):
+        kw = pol.kwargs()
+        fields = [obj.raw_id, obj.response.client_data_json] + ([obj.response.authenticator_data, obj.response.signature] if kind == "auth-mv" else [obj.response.attestation_object])
+        def snap():
+            try:
+                return [bytes(f) for f in fields]
+            except Exception as e:
+                return "unreadable: " + type(e).__name__
+        before = snap()
+        try:
+            res = (webauthn.verify_authentication_response if kind == "auth-mv" else webauthn.verify_registration_response)(credential=obj, **kw)
+            out = "OK " + (impl.pr_verified_auth(res) if kind == "auth-mv" else impl.pr_verified_reg(res))
+        except Exception as e:
+            out = "ERR " + fw.classify_exc(e)
+        if snap() != before:
+            viol.append("verification modified (or released) the credential record it was passed")
+        res = None
     elif kind == "genreg":
         j = int(key.split("/")[1])
         kw = dict(rp_id="example.com", rp_name="Example", user_name=f"user{j}", challenge=b"c" * 16, user_id=b"u" * 8)
@@ -177,8 +213,8 @@ def run(tier, seed):
 
     def one(spec, pos, hist):
         key, kind, pol, obj = spec
-        sub = pol.substitute if kind == "reg" else None
-        with impl.substituted(sub, pol.now if kind == "reg" else T0):
+        sub = pol.substitute if kind in ("reg", "reg-mv") else None
+        with impl.substituted(sub, pol.now if kind in ("reg", "reg-mv") else T0):
             out, viol, res = run_spec(spec)
         chk.evals += 1
         for v in viol:
@@ -200,14 +236,14 @@ def run(tier, seed):
     import os
     for spec in pool:
         key, kind, pol, obj = spec
-        if kind not in ("auth", "reg"):
+        if kind not in ("auth", "reg", "auth-mv", "reg-mv"):
             continue
         rfd, wfd = os.pipe()
         pid = os.fork()
         if pid == 0:
             try:
                 os.close(rfd)
-                with impl.substituted(pol.substitute if kind == "reg" else None, pol.now if kind == "reg" else T0):
+                with impl.substituted(pol.substitute if kind in ("reg", "reg-mv") else None, pol.now if kind in ("reg", "reg-mv") else T0):
                     out = run_spec(spec)[0]
                 os.write(wfd, out.encode("utf-8", "replace"))
             finally:
@@ -259,7 +295,7 @@ def run(tier, seed):
             if spec[0] not in first:
                 first[spec[0]] = run_spec(spec)[0]
         # rp-only / untrusted specs of the built-in-root formats substitute an UNRELATED built-in anchor: exclude them from the threaded run (different module-global substitution)
-        calls = [s for s in calls if "rp-only" not in s[0] and not s[0].endswith(("/ok-later", "/expired")) and not (s[0].endswith("/untrusted") and s[0].split("/")[1] in ("apple", "android-key", "android-safetynet"))]
+        calls = [s for s in calls if "rp-only" not in s[0] and not s[0].startswith("real/") and not s[0].endswith(("/ok-later", "/expired")) and not (s[0].endswith("/untrusted") and s[0].split("/")[1] in ("apple", "android-key", "android-safetynet"))]
         ths = [threading.Thread(target=worker, args=(t,)) for t in range(16)]
         for t in ths:
             t.start()
